@@ -13,8 +13,9 @@ CONSTANTS
   Faults = TRUE
   Full = TRUE
   DetOnly = FALSE
+  Wrong = "none"
 INIT ScriptInit
 NEXT ScriptNext
 INVARIANTS TypeOK EncodingConsistent KeysWellPlaced EmitScript
-PROPERTIES FailedReadIsLocal FailedWriteKeepsBackend NoErrorWithoutFault NeverWrong NeverAfterDelete NeverAfterDeadline NeverCorrupt ReadIsPeek NoAlias AddSemantics ReadYourWrites DeleteRemoves
+PROPERTIES FailedReadIsLocal FailedWriteKeepsBackend NoErrorWithoutFault NeverWrong NeverAfterDelete NeverAfterDeadline NeverCorrupt ReadIsPeek NoAlias AddSemantics ReadYourWrites DeleteRemoves StopIsInert
 CHECK_DEADLOCK FALSE
